@@ -168,6 +168,7 @@ struct DeckSpec {
     bool endscale = false, threepoint = false, hyst = false;
     int krModel = 0;                                               // EHYSTR item 2: 0/1 Carlson, 2/3 Killough (non-wetting phase)
     double modParam = 0.1;                                         // EHYSTR item 4
+    double curvature = 0.1;                                        // EHYSTR item 1 (curvature of the Pc scanning curves)
     std::string ehystrFlag = "KR";
     bool hasTolcrit = false; double tolcrit = 1e-6;
     bool maskD[17] = {}, maskI[17] = {};
@@ -204,7 +205,7 @@ static std::string deckText(const DeckSpec& d)
         s += "SOF3\n"; for (auto& R : d.regions) table(s, {&R.so, &R.krow3, &R.krog3});
     }
     if (d.endscale) s += std::string("SCALECRS\n ") + (d.threepoint ? "YES" : "NO") + " /\n";
-    if (d.hyst) s += "EHYSTR\n 0.1 " + std::to_string(d.krModel) + " 1.0 " + num(d.modParam) + " " + d.ehystrFlag + " /\n";
+    if (d.hyst) s += "EHYSTR\n " + num(d.curvature) + " " + std::to_string(d.krModel) + " 1.0 " + num(d.modParam) + " " + d.ehystrFlag + " /\n";
     auto arrays = [&](const bool* mask, const std::vector<std::array<double, 17>>& arr, const char* prefix) {
         for (int k = 0; k < 17; ++k) {
             if (!mask[k]) continue;
@@ -354,7 +355,9 @@ static std::string arraysStr(const Opm::EclipseState& es, const bool* mask, cons
 static std::string flagsStr(const DeckSpec& d)
 {
     std::string f;
-    f += d.endscale ? '1' : '0'; f += d.threepoint ? '1' : '0'; f += d.hyst ? '1' : '0'; f += static_cast<char>('0' + d.krModel);
+    f += d.endscale ? '1' : '0'; f += d.threepoint ? '1' : '0'; f += d.hyst ? '1' : '0';
+    f += d.ehystrFlag == "PC" ? '-' : static_cast<char>('0' + d.krModel);          // EclHysterConfig: flag PC switches the relperm model off,
+    f += d.ehystrFlag == "KR" ? '-' : '0';                                          // flag KR the capillary-pressure model
     return f;
 }
 
@@ -363,7 +366,8 @@ static std::string cellSpec(const DeckSpec& d, const Opm::EclipseState& es, int 
 {
     const double tolcrit = es.runspec().saturationFunctionControls().minimumRelpermMobilityThreshold();
     const double modParam = d.hyst ? es.runspec().hysterPar().modParamTrapped() : 0.0;
-    std::string s = std::to_string(d.family) + " " + hx(tolcrit) + " " + flagsStr(d) + " " + hx(modParam) + " " + maskStr(d.maskD) + " " +
+    const double curvature = d.hyst ? es.runspec().hysterPar().curvatureCapPrs() : 0.0;
+    std::string s = std::to_string(d.family) + " " + hx(tolcrit) + " " + flagsStr(d) + " " + hxl({modParam, curvature}) + " " + maskStr(d.maskD) + " " +
                     tablesStr(es, d.family, d.satnum[cell] - 1) + " " + arraysStr(es, d.maskD, "", cell);
     if (d.hyst) s += " " + maskStr(d.maskI) + " " + tablesStr(es, d.family, d.imbnum[cell] - 1) + " " + arraysStr(es, d.maskI, "I", cell);
     else s += " - - -";
@@ -482,6 +486,12 @@ static void corrDecks(vh::Rng& r, vh::Sink& sink, int ndecks)
     for (int k = 0; k < ndecks; ++k) {
         GenCfg g;
         DeckSpec d = makeDeck(r, g);
+        if (d.hyst) {                                                           // third round: model 4, flags PC / BOTH, curvature
+            static const char* FLAGS[3] = {"KR", "PC", "BOTH"};
+            d.ehystrFlag = FLAGS[r.range(0, 2)];
+            if (r.coin(1, 4)) d.krModel = 4;
+            d.curvature = r.coin(1, 3) ? 0.1 : 0.02 + 0.4 * r.unit();
+        }
         const std::string text = deckText(d);
         Built b = build(d, text);
         const auto& es = *b.es;
@@ -525,11 +535,11 @@ static void corrDecks(vh::Rng& r, vh::Sink& sink, int ndecks)
             std::string a;
             auto probeAll = [&]() {
                 auto& dp = defaultParams(*b.mgr, cell);
-                std::string t = !d.hyst ? std::string("-/-/-/-") : d.krModel <= 1 ?
-                                hx(dp.oilWaterParams().krnSwMdc()) + "/" + hx(dp.oilWaterParams().deltaSwImbKrn()) + "/" +
-                                hx(dp.gasOilParams().krnSwMdc()) + "/" + hx(dp.gasOilParams().deltaSwImbKrn()) :
-                                hx(dp.oilWaterParams().krnSwMdc()) + "/" + hx(dp.oilWaterParams().Sncrt()) + "/" +
-                                hx(dp.gasOilParams().krnSwMdc()) + "/" + hx(dp.gasOilParams().Sncrt());
+                auto hs = [](const auto& P) {
+                    return hx(P.krnSwMdc()) + "/" + hx(P.deltaSwImbKrn()) + "/" + hx(P.Sncrt()) + "/" + hx(P.pcSwMdc()) + "/" + hx(P.pcSwMic()) + "/" +
+                           (P.initialImb() ? "1" : "0") + "/" + hx(P.Swcrt());
+                };
+                std::string t = !d.hyst ? std::string("-") : hs(dp.oilWaterParams()) + "/" + hs(dp.gasOilParams());
                 for (const Sat& p : probes) {
                     const Vals v = evaluate(*b.mgr, cell, p);
                     t += "/" + hx(v.krw) + ":" + hx(v.kro) + ":" + hx(v.krg) + ":" + hx(v.pcow) + ":" + hx(v.pcgo);
@@ -540,7 +550,7 @@ static void corrDecks(vh::Rng& r, vh::Sink& sink, int ndecks)
             for (const Sat& s : hist) { b.mgr->updateHysteresis(fluidState(s), cell); a += " " + probeAll(); }
             sink.emit("satdeck.eval " + spec + " " + satsStr(hist) + " " + satsStr(probes), a);
             sink.count("cell.family=" + std::to_string(d.family)); sink.count(std::string("cell.endscale=") + (d.endscale ? (d.threepoint ? "3pt" : "2pt") : "off"));
-            sink.count(std::string("cell.hyst=") + (d.hyst ? (d.krModel <= 1 ? "carlson" : "killough") + std::to_string(d.krModel) : "off"));
+            sink.count(std::string("cell.hyst=") + (d.hyst ? (d.krModel <= 1 ? "carlson" : "killough") + std::to_string(d.krModel) + "/" + d.ehystrFlag : "off"));
         }
         sink.count("decks");
         sink.count("decks.regions=" + std::to_string(d.regions.size()));
@@ -882,6 +892,53 @@ static std::map<std::string, long> propDecks(vh::Rng& r, vh::PropLog& log, int n
                     }
                 }
                 (void) R;
+            }
+        }
+        // ---------------------------------------------------------------- (6) third round: EHYSTR models 0-4 with flag KR / PC / BOTH, per cell
+        {
+            vh::Rng q(sub ^ 0x9999);
+            GenCfg g; g.endscale = q.coin(1, 3); g.hyst = 1; g.allowSmallKr = false; g.consistent = true; g.maxKrModel = 4;
+            DeckSpec d = makeDeck(q, g);
+            for (int c = 10; c < 14; ++c) d.maskD[c] = d.maskI[c] = false;          // no three-point vertical scaling: curves stay within [0, max]
+            static const char* FLAGS[3] = {"KR", "PC", "BOTH"};
+            d.ehystrFlag = FLAGS[q.range(0, 2)];
+            d.curvature = q.coin(1, 3) ? 0.1 : 0.02 + 0.4 * q.unit();
+            DeckSpec dn = d; dn.hyst = false;                                        // the drainage curves alone
+            Built b = build(d, deckText(d)), bn = build(dn, deckText(dn));
+            const std::string cfgTag = "EHYSTR " + std::to_string(d.krModel) + " " + d.ehystrFlag + " ";
+            for (int cell = 0; cell < d.ncell; ++cell) {
+                auto& dp = defaultParams(*b.mgr, cell);
+                const double swl = dp.Swl();
+                std::vector<Sat> h = satHistory(q, 8, q.range(0, 2));
+                double minOw = 2, minGo = 2, minPcOw = 2, minPcGo = 2;
+                auto cl = [](double x) { return std::min(1.0, std::max(0.0, x)); };
+                for (const Sat& s : h) {
+                    const std::string at = cfgTag + tag(cell) + "after " + satStr(s);
+                    b.mgr->updateHysteresis(fluidState(s), cell);
+                    // reversal bookkeeping of both two-phase objects
+                    minOw = std::min(minOw, 1 - cl(s.so)); minGo = std::min(minGo, 1.0 - swl - cl(s.sg));
+                    if (d.ehystrFlag != "KR") { minPcOw = std::min(minPcOw, cl(s.sw)); minPcGo = std::min(minPcGo, cl(s.so)); }
+                    chk(dp.oilWaterParams().krnSwMdc() == minOw && dp.gasOilParams().krnSwMdc() == minGo, "deck.hyst3.minimum.krn", at);
+                    chk(dp.oilWaterParams().pcSwMdc() == minPcOw && dp.gasOilParams().pcSwMdc() == minPcGo, "deck.hyst3.minimum.pc",
+                        at + " ow pcSwMdc " + num(dp.oilWaterParams().pcSwMdc()) + " want " + num(minPcOw) + " go " + num(dp.gasOilParams().pcSwMdc()) + " want " + num(minPcGo));
+                    // idempotent update: the same fluid state again changes nothing
+                    std::vector<Sat> probes = probesFor(q, swl, 3);
+                    std::vector<Vals> before;
+                    for (const Sat& p : probes) before.push_back(evaluate(*b.mgr, cell, p));
+                    const bool again = b.mgr->updateHysteresis(fluidState(s), cell);
+                    bool sameVals = true;
+                    for (size_t k = 0; k < probes.size(); ++k) {
+                        const Vals a = evaluate(*b.mgr, cell, probes[k]);
+                        sameVals = sameVals && hx(a.krw) == hx(before[k].krw) && hx(a.kro) == hx(before[k].kro) && hx(a.krg) == hx(before[k].krg) && hx(a.pcow) == hx(before[k].pcow) && hx(a.pcgo) == hx(before[k].pcgo);
+                    }
+                    chk(!again && sameVals, "deck.hyst3.idempotent-update", at + " second updateHysteresis returned " + std::to_string(again));
+                    // EHYSTR item 5: flag PC leaves the relperms, flag KR the capillary pressures on the drainage curves
+                    for (size_t k = 0; k < probes.size(); ++k) {
+                        const Vals v = evaluate(*bn.mgr, cell, probes[k]);
+                        if (d.ehystrFlag == "PC") chk(before[k].krw == v.krw && before[k].krg == v.krg && (before[k].kro == v.kro || (std::isnan(before[k].kro) && std::isnan(v.kro))), "deck.hyst3.flag-pc", at + " at " + satStr(probes[k]));
+                        if (d.ehystrFlag == "KR") chk(before[k].pcow == v.pcow && before[k].pcgo == v.pcgo, "deck.hyst3.flag-kr", at + " at " + satStr(probes[k]));
+                    }
+                }
             }
         }
     }
